@@ -46,10 +46,15 @@ MODULES = {
 
 
 def run_cmd(name, args, mode="inproc"):
-    """Returns the exit status (int) of one command, run like a process."""
+    """Returns the exit status (int) of one command, run like a process.
+    mode "subprocess-O" runs the interpreter with assertions stripped
+    (PYTHONOPTIMIZE=1), as deployments sometimes do."""
     modname = "neuroglancer_scripts.scripts." + MODULES[name]
-    if mode == "subprocess":
+    if mode.startswith("subprocess"):
         env = dict(os.environ, PYTHONPATH=repo_src(), TQDM_DISABLE="1")
+        env.pop("PYTHONOPTIMIZE", None)
+        if mode == "subprocess-O":
+            env["PYTHONOPTIMIZE"] = "1"
         r = subprocess.run([sys.executable, "-m", modname] + args, env=env,
                            capture_output=True, text=True)
         return r.returncode, (r.stderr or "")[-300:]
@@ -363,11 +368,12 @@ def run(ctx, n):
 
 def run_subprocess(ctx, n):
     def check(ctx, case):
-        nscales = check_case(ctx, case, mode="subprocess")
+        mode = "subprocess-O" if case["seed"] % 2 else "subprocess"
+        nscales = check_case(ctx, case, mode=mode)
         if nscales is None:
             return
         ctx.record(case, nscales >= 2 and case["repeat"] is not None,
-                   ["subprocess"])
+                   [mode])
     ctx.run_hypothesis(cases(), check, n)
 
 
